@@ -4,6 +4,7 @@
 import GfsModel.ListSeqs
 import GfsModel.SeqOps
 import GfsProofs.ListLemmas
+import GfsProofs.ListOrder
 import GfsGen.Facts
 import GfsModel.ExpectedSrc
 
@@ -65,6 +66,33 @@ theorem C05_hidden (items : List FileItem) (o : ListOpts) (hh : o.hidden = false
 /-- the listing never fails -/
 theorem C05_total (o : ListOpts) (items : List FileItem) :
     ∃ r, scanItems o none items [] [] = .ok r := scanItems_ok o items [] []
+
+/-- "the files of each basename/extension share one digit width": any two listed files (not
+    skipped as hidden) that the optional-frame pattern reads with the same directory, basename
+    and extension have frame tokens of the same length -/
+def OneWidthPerKey (o : ListOpts) (paths : List Bytes) : Prop := Uniform o (paths.map itemOf)
+
+/-- C05, last clause: under that condition the result — as a set of sequences (hence of
+    sequence strings) — does not depend on the order of the input list, for every permutation,
+    every option subset and both pad styles; and the listing does not fail. -/
+theorem C05_order (paths paths' : List Bytes) (o : ListOpts) (hperm : paths.Perm paths')
+    (hU : OneWidthPerKey o paths) :
+    ∃ r r', findSequencesInList paths o = .ok r ∧ findSequencesInList paths' o = .ok r' ∧
+      (∀ s, s ∈ r ↔ s ∈ r') ∧ (∀ t, t ∈ r.map Seq.str ↔ t ∈ r'.map Seq.str) := by
+  obtain ⟨r, r', h1, h2, h3⟩ :=
+    findInItems_order o (paths.map itemOf) (paths'.map itemOf) (hperm.map itemOf) hU
+  refine ⟨r, r', h1, h2, h3, ?_⟩
+  intro t
+  simp only [List.mem_map]
+  constructor
+  · rintro ⟨s, hs, rfl⟩; exact ⟨s, (h3 s).1 hs, rfl⟩
+  · rintro ⟨s, hs, rfl⟩; exact ⟨s, (h3 s).2 hs, rfl⟩
+
+/-- non-vacuity: two keys, one width each, a frameless and a hidden file -/
+example : OneWidthPerKey { single := true, hidden := false, style := .hash4 }
+    ["/d/a.01.x".toList, "/d/a.02.x".toList, "/d/b.5.y".toList, "/d/notes".toList, "/d/.h.1.x".toList] := by
+  unfold OneWidthPerKey Uniform
+  decide
 
 /-- the declarations of /repo this property's model and specification were written from are,
     on this run, the ones the model was last aligned with (digest of their comment- and
